@@ -1,0 +1,5 @@
+//go:build !verif
+
+package atomic
+
+func verifYield(op string) {}
